@@ -166,6 +166,11 @@ def make_state(seed):
     if kind == "function" and ch.chance("noparams", 0.1):
         # a description without any parameter, but with a return entry (numpydoc: the ReST parser needs at least one field)
         src = 'def train() -> int:\n    """\n    Fetch the answer.\n\n    Returns\n    -------\n    int\n        the answer\n    """\n    return 42\n'
+    if kind == "argparse" and ch.chance("splitdesc", 0.25):
+        # the description spelled as two literals joined by `+` (a hand-written function)
+        import re as _re
+
+        src = _re.sub(r"argument_parser\.description = '([^' ]+) ([^']*)'", lambda m: "argument_parser.description = '%s ' + '%s'" % (m.group(1), m.group(2)), src, count=1)
     if kind != "live_function" and ch.chance("qualified", 0.25):
         # annotations spelled through the module (typing.Optional[int], List[typing.Any]): names nested inside a subscript
         src = src.replace(": Optional[", ": typing.Optional[").replace(": Literal[", ": typing.Literal[").replace("Optional[List[", "Optional[typing.List[")
